@@ -109,6 +109,10 @@ pub fn check_linear(c: &PairCase) -> CheckResult {
     let (a, b) = (Bits::from_bytes(&c.a.bytes), Bits::from_bytes(&c.b.bytes));
     let ab = a.xor(&b);
     if ab.is_zero() {
+        // a == b: the relation is trivial, and the all-zero state need not be constructible
+        return Ok(CaseInfo::new(false).class("degenerate-pair"));
+    }
+    if ab.is_zero() {
         return Ok(CaseInfo::new(false).class("a==b"));
     }
     let (ja, jb, jab) = (linear::jump(c.ty, &a, c.long).map_err(inconcl)?, linear::jump(c.ty, &b, c.long).map_err(inconcl)?, linear::jump(c.ty, &ab, c.long).map_err(inconcl)?);
